@@ -95,10 +95,42 @@ def Violation(prop, replay_path):
   print('VIOLATION property=%s replay=%s' % (prop, replay_path), flush=True)
 
 
+def _WorkerLoop(fn, conn, initializer, initargs):
+  try:
+    if initializer:
+      initializer(*initargs)
+    while True:
+      msg = conn.recv()
+      if msg is None:
+        break
+      for idx, item in msg:
+        try:
+          conn.send(('r', idx, fn(item)))
+        except BaseException as e:  # pylint: disable=broad-except
+          if isinstance(e, KeyboardInterrupt):
+            raise
+          import traceback
+          conn.send(('x', idx, '%s: %s\n%s' % (type(e).__name__, e,
+                                               traceback.format_exc()[-1500:])))
+      conn.send(('d', None, None))
+  except (EOFError, BrokenPipeError, KeyboardInterrupt):
+    pass
+  finally:
+    os._exit(0)  # pylint: disable=protected-access
+
+
 def ParallelMap(fn, items, workers=None, chunksize=8, initializer=None,
-                initargs=()):
-  """Ordered parallel map in fresh worker processes (fork)."""
+                initargs=(), on_death=None, item_timeout=None):
+  """Ordered parallel map in fresh worker processes (fork).
+
+  A worker that dies (segfault, out of memory, killed) or spends more than
+  item_timeout seconds on one item does not hang the map: the item it was
+  working on gets on_death(item, reason) as its result (RuntimeError if no
+  on_death is given), the rest of its chunk is queued again and the worker is
+  replaced.  An exception raised by fn is re-raised here, as Pool.map does."""
+  import collections
   import multiprocessing as mp
+  from multiprocessing import connection
   items = list(items)
   if not items:
     return []
@@ -108,5 +140,102 @@ def ParallelMap(fn, items, workers=None, chunksize=8, initializer=None,
       initializer(*initargs)
     return [fn(x) for x in items]
   ctx = mp.get_context('fork')
-  with ctx.Pool(workers, initializer=initializer, initargs=initargs) as pool:
-    return pool.map(fn, items, chunksize=chunksize)
+  n = len(items)
+  queue = collections.deque(
+      list(range(k, min(n, k + chunksize))) for k in range(0, n, chunksize))
+  results = [None] * n
+  have = [False] * n
+  state = {}          # conn -> [process, pending indices, time of last message]
+  failure = []
+
+  def Spawn():
+    parent, child = ctx.Pipe()
+    p = ctx.Process(target=_WorkerLoop, args=(fn, child, initializer, initargs))
+    p.daemon = True
+    p.start()
+    child.close()
+    state[parent] = [p, [], time.time()]
+    Feed(parent)
+
+  def Feed(conn):
+    if queue and not failure:
+      idxs = queue.popleft()
+      state[conn][1] = list(idxs)
+      state[conn][2] = time.time()
+      conn.send([(i, items[i]) for i in idxs])
+    else:
+      state[conn][1] = []
+      try:
+        conn.send(None)
+      except (BrokenPipeError, OSError):
+        pass
+
+  def Dead(conn, reason):
+    p, pending, _ = state.pop(conn)
+    try:
+      p.kill()
+    except Exception:  # pylint: disable=broad-except
+      pass
+    p.join(5)
+    conn.close()
+    if pending:
+      i = pending[0]
+      if on_death is None:
+        failure.append('worker %s on item %d' % (reason, i))
+      else:
+        results[i], have[i] = on_death(items[i], reason), True
+      if pending[1:]:
+        queue.appendleft(pending[1:])
+    if (queue or on_death is not None) and not failure and not all(have):
+      if queue:
+        Spawn()
+
+  for _ in range(min(workers, len(queue))):
+    Spawn()
+  try:
+    while state and not all(have):
+      ready = connection.wait(list(state), timeout=1.0)
+      now = time.time()
+      for conn in ready:
+        try:
+          kind, idx, val = conn.recv()
+        except (EOFError, ConnectionResetError, OSError):
+          Dead(conn, 'died')
+          continue
+        st = state[conn]
+        st[2] = now
+        if kind == 'r':
+          results[idx], have[idx] = val, True
+          st[1].remove(idx)
+        elif kind == 'x':
+          failure.append('item %d raised %s' % (idx, val))
+          have[idx] = True
+          st[1].remove(idx)
+        elif kind == 'd':
+          Feed(conn)
+      if item_timeout:
+        for conn in list(state):
+          if state[conn][1] and now - state[conn][2] > item_timeout:
+            Dead(conn, 'timeout after %ds' % item_timeout)
+      for conn in list(state):
+        if not state[conn][0].is_alive() and not conn.poll():
+          Dead(conn, 'died')
+      if failure:
+        break
+      if not state and queue:
+        Spawn()
+  finally:
+    for conn, (p, _, _) in list(state.items()):
+      try:
+        conn.send(None)
+      except Exception:  # pylint: disable=broad-except
+        pass
+      p.join(0.2)
+      if p.is_alive():
+        p.kill()
+      conn.close()
+  if failure:
+    raise RuntimeError('ParallelMap: ' + failure[0])
+  if not all(have):
+    raise RuntimeError('ParallelMap: %d items without a result' % have.count(False))
+  return results
